@@ -31,7 +31,8 @@ MANIFEST = dict(
          "running the compiled code halts with exactly that output and value. Named clauses: C09_field_order, "
          "C09_list_order, C09_string_order, C09_arg_order, C09_innermost_binding; C09_no_stuck_partial (no panic / "
          "error on such runs). The unrestricted statement is refuted for function values taken before a redefinition "
-         "(C09_funref_refuted; open finding). NOT proved: runtime-error outcomes (see design/vm.md), absence of panics "
+         "(C09_funref_refuted; open finding). C09_errors_partial: runtime errors of the reference are errors of the same kind on the machine (struct "
+         "literals excluded, format specifiers assumed total). NOT proved: absence of panics "
          "for all well-typed programs, u16 wrap-around. The model is tied to the code on every run: the model "
          "compiler's output is compared instruction by instruction with the real compiler's (hook dump), and model "
          "machine / reference evaluator / implementation results are compared three ways on generated well-typed "
@@ -44,7 +45,7 @@ MANIFEST = dict(
     technique="Coq forward-simulation proof (fuel induction, frame-generic invariant) + three-way model/implementation correspondence by vm_compute",
 )
 
-THEOREMS = ["C09_compile_correct", "C09_no_stuck_partial", "C09_errors_partial", "C09_expr_simulation", "C09_list_order", "C09_arg_order",
+THEOREMS = ["C09_compile_correct", "C09_no_stuck_partial", "C09_no_stuck_on_error_partial", "C09_errors_partial", "C09_expr_simulation", "C09_list_order", "C09_arg_order",
             "C09_string_order", "C09_field_order", "C09_innermost_binding", "C09_funref_refuted"]
 ALLOWED_AXIOMS = []
 FUEL_REF = 600
